@@ -53,6 +53,26 @@ def wl_cbf(ctx, rng, case):
             out[k] -= n
             removes += 1
             ctx.count("op.remove")
+        elif r < 0.89:
+            # a second object derived from this one (union with an empty or a fed filter, in either role; a reload) is then
+            # changed: what THIS filter reports must not move (checked by the probes and the history-independence oracle below)
+            g = P.CountingBloomFilter(est, rate, **bl.kw_hash(hf))
+            how = rng.choice(["union(empty)", "empty.union", "union(fed)", "fed.union", "intersection(self)", "reload"])
+            if "fed" in how:
+                g.add(rng.choice(keys), rng.randint(1, 3))
+            d = {"union(empty)": lambda: f.union(g), "union(fed)": lambda: f.union(g), "empty.union": lambda: g.union(f), "fed.union": lambda: g.union(f),
+                 "intersection(self)": lambda: f.intersection(f), "reload": lambda: P.CountingBloomFilter.frombytes(bytes(f), **bl.kw_hash(hf))}[how]()
+            case.op("derive-and-change", how)
+            if d is None:
+                continue
+            for k2 in rng.sample(keys, min(len(keys), 3)):
+                if out[k2] > 0 and rng.random() < 0.6:
+                    d.remove(k2, out[k2])
+                else:
+                    d.add(k2, rng.randint(1, 4))
+            if rng.random() < 0.3:
+                d.clear()
+            ctx.count("derived_objects_changed")
         elif r < 0.93:
             # add then remove the same amount: the exported state must be exactly restored
             k = rng.choice(keys)
